@@ -350,6 +350,7 @@ func (k Keeper) CloseBatchAuction(ctx context.Context, auction types.AuctionI) e
 			return err
 		}
 
+		ba.MatchedPrice = publishedMatchedPrice(mInfo)
 		if err := k.ApplyVestingSchedules(ctx, auction); err != nil {
 			return err
 		}
@@ -384,11 +385,20 @@ func (k Keeper) CloseBatchAuction(ctx context.Context, auction types.AuctionI) e
 		return err
 	}
 
+	ba.MatchedPrice = publishedMatchedPrice(mInfo)
 	if err := k.ApplyVestingSchedules(ctx, auction); err != nil {
 		return err
 	}
 
 	return nil
+}
+
+// publishedMatchedPrice is the clearing price used by the settlement, zero if nothing was sold.
+func publishedMatchedPrice(mInfo MatchingInfo) math.LegacyDec {
+	if mInfo.MatchedPrice.IsNil() || !mInfo.TotalMatchedAmount.IsPositive() {
+		return math.LegacyZeroDec()
+	}
+	return mInfo.MatchedPrice
 }
 
 // CreateFixedPriceAuction handles types.MsgCreateFixedPriceAuction and create a fixed price auction.
